@@ -384,8 +384,8 @@ def programs(scope, size, level):
         cls = {
             "nonneg": [("absolute", x), ("square", y)],
             "nonpos": [("negative", ("absolute", y)), ("negative", ("square", x))],
-            "pos": [("add", ("absolute", x), ("c", 1)), ("c", 1)],
-            "neg": [("negative", ("add", ("square", y), ("c", 1))), ("c", -1)],
+            "pos": [("add", ("absolute", x), ("c", 1)), ("c", 1), ("c", 2), ("n", "largest")],
+            "neg": [("negative", ("add", ("square", y), ("c", 1))), ("c", -1), ("c", -0.5)],
             "zero": [("c", 0), ("c", -0.0)],
             "any": [x, y],
         }
@@ -416,6 +416,14 @@ def programs(scope, size, level):
             for c in T01:
                 inner = ("select", c, x, y)
                 out += [("select", p_, inner, y), ("select", p_, x, inner), ("select", c, ("select", p_, x, y), y), ("select", c, x, ("select", p_, y, x))]
+    elif scope == "F":  # folding of constants that are not representable in the (narrower) target type
+        x = ("x",)
+        K = [("c", 0.1), ("c", 0.2), ("c", 0.3), ("c", 0.7), ("c", 1.0 / 3.0), ("c", 1e-3), ("c", 16777217.0), ("n", "pi")]
+        ops = ["add", "subtract", "multiply", "divide"]
+        folded = [(k, a, b) for k in ops for a in K for b in K]
+        out = [(c, f, d) for c in proggen.COMPARE for f in folded for d in (K if size >= 2 else K[:4])]
+        out += [(k2, x, f) for k2 in ("add", "multiply", "lt", "subtract") for f in folded] + [("select", ("eq", f, d), x, ("negative", x)) for f in folded[:64] for d in K[:4]]
+        out += [("sqrt", f) for f in folded] + [("multiply", x, ("sqrt", a)) for a in K] + [("add", x, ("negative", a)) for a in K] + [("lt", ("absolute", ("subtract", a, b)), d) for a in K for b in K for d in K[:3]]
     elif scope == "D":
         Ld = [q for q in proggen.leaves(2) if q[0] in ("c", "n")]
         out = []
@@ -701,7 +709,7 @@ def run(run):
 
     plan = []
     for cfg in ("float32", "float"):
-        plan += [("S", 0, 0, cfg), ("T", 2 if thorough else 1, 0, cfg), ("L", 2 if thorough else 1, 0, cfg), ("A", 1, 2, cfg), ("A", 2, 1 if thorough else 0, cfg), ("X", 2, 0, cfg), ("B", 3, 0, cfg), ("D", 1, 2, cfg), ("C", 2, 2, cfg)]
+        plan += [("S", 0, 0, cfg), ("T", 2 if thorough else 1, 0, cfg), ("L", 2 if thorough else 1, 0, cfg), ("F", 2 if thorough else 1, 0, cfg), ("A", 1, 2, cfg), ("A", 2, 1 if thorough else 0, cfg), ("X", 2, 0, cfg), ("B", 3, 0, cfg), ("D", 1, 2, cfg), ("C", 2, 2, cfg)]
         if thorough:
             plan += [("C", 3, 1, cfg), ("D", 2, 2, cfg)]
     tasks = []
@@ -723,7 +731,7 @@ def run(run):
     run.rule = (
         "every expression tree of the stated sizes over the kinds negative/positive/absolute/sign/sqrt/square/add/subtract/multiply/divide/minimum/maximum/6 comparisons/"
         "logical and,or,xor,not/select with leaves x, y, numeric (0, 1, -1, 2, 0.5, -0.0, ...) and named constants, booleans, in a float32-typed and a generic-float "
-        "Context (scopes A, B, C, D as listed in counters; S/T: every comparison between sign-definite builders and every operation over two sign-definite operands compared with 0/sign-definite values; L: every and/or/xor/not tree of depth <= 2 over shared atoms, selects on them and nested selects), each rewritten and compared with the original on the full 18x18 assignment grid (flag-free points of "
+        "Context (scopes A, B, C, D as listed in counters; S/T: every comparison between sign-definite builders and every operation over two sign-definite operands compared with 0/sign-definite values; F: comparisons and operations over foldable pairs of constants that are inexact in float32; L: every and/or/xor/not tree of depth <= 2 over shared atoms, selects on them and nested selects), each rewritten and compared with the original on the full 18x18 assignment grid (flag-free points of "
         "the original) and exactly on a rational grid (9x9 thorough, 5x5 quick); shipped algorithms before/after fa.rewrite on lattices; non-trivial = programs the rewriter changed"
     )
     run.exhaustive = True
